@@ -1,5 +1,5 @@
 //@unit passthru
-//@props C03 C05 C02 C11
+//@props C03 C05 C02 C11 C15
 // U-passthru: real (namespaced) SVG takes the pass-through route (src/transform.rs):
 // is_real_svg against a spec function written from the property statement, process_events returns
 // the input events unchanged and touches nothing but `real_svg`, postprocess writes exactly the
@@ -56,6 +56,9 @@ pub uninterp spec fn all_events_of(el: SvgElement, ctx: TransformerContext) -> I
 #[verifier::external_body] pub struct Reader { _p: u8 }
 pub uninterp spec fn doc_of(r: Reader) -> InputList;
 
+pub open spec fn graphics_name(n: Seq<char>) -> bool {
+    n == "circle"@ || n == "ellipse"@ || n == "image"@ || n == "line"@ || n == "path"@ || n == "polygon"@ || n == "polyline"@ || n == "rect"@ || n == "text"@ || n == "use"@ || n == "reuse"@
+}
 pub open spec fn svg_ns() -> Seq<char> { "http://www.w3.org/2000/svg"@ }
 
 /// an event which opens an element
@@ -88,7 +91,7 @@ impl SvgElement {
         ensures (match r { Some(s) => Some(s@), None => None }) == attr_of(*self, key@)
     { unimplemented!() }
     #[verifier::external_body]
-    pub fn set_attr(&mut self, key: &str, value: &str) { unimplemented!() }
+    pub fn set_attr(&mut self, key: &str, value: &str) ensures final(self).name == old(self).name { unimplemented!() }
     pub uninterp spec fn inner_events_some(&self, ctx: TransformerContext) -> bool;
     #[verifier::external_body]
     pub fn inner_events(&self, context: &TransformerContext) -> (r: Option<InputList>) ensures r is Some == self.inner_events_some(*context) { unimplemented!() }
@@ -126,9 +129,18 @@ impl TransformerContext {
     #[verifier::external_body]
     pub fn set_events(&mut self, input: &InputList) ensures final(self).real_svg == old(self).real_svg { unimplemented!() }
     #[verifier::external_body]
-    pub fn update_element(&mut self, el: &SvgElement) { unimplemented!() }
+    pub fn update_element(&mut self, el: &SvgElement) ensures final(self).scope_stack@ == old(self).scope_stack@ { unimplemented!() }      // U-scope: scope_untouched
     #[verifier::external_body]
-    pub fn set_prev_element(&mut self, el: &SvgElement) { unimplemented!() }
+    pub fn set_prev_element(&mut self, el: &SvgElement) ensures final(self).scope_stack@ == old(self).scope_stack@ { unimplemented!() }
+    /// U-scope: C15.push.scope / C15.push.innermost, C15.pop.scope (proved there)
+    #[verifier::external_body]
+    pub fn push_element(&mut self, el: &SvgElement)
+        ensures final(self).scope_stack.len() == old(self).scope_stack.len() + 1, final(self).scope_stack@.drop_last() == old(self).scope_stack@
+    { unimplemented!() }
+    #[verifier::external_body]
+    pub fn pop_element(&mut self) -> Option<SvgElement>
+        ensures old(self).scope_stack.len() > 0 ==> final(self).scope_stack@ == old(self).scope_stack@.drop_last()
+    { unimplemented!() }
 }
 
 impl InputList {
@@ -163,7 +175,10 @@ impl InputList {
 pub fn tagify_indexed(input: InputList) -> Result<TagList> { unimplemented!() }
 #[verifier::external_body]
 pub fn process_tags(tags: &mut TagList, context: &mut TransformerContext, idx_output: &mut OutMap, bbb: &mut BoundingBoxBuilder) -> (r: Result<Option<BoundingBox>>)
-    ensures final(context).real_svg == old(context).real_svg      // (every nested generator ends in process_events: same clause, by induction on the nesting)
+    ensures final(context).real_svg == old(context).real_svg,      // (every nested generator ends in process_events: same clause, by induction on the nesting)
+        // every generator changes the innermost scope at most (U-scope: C15.scope.outer_bindings_untouched)
+        old(context).scope_stack.len() > 0 ==> final(context).scope_stack.len() == old(context).scope_stack.len()
+            && final(context).scope_stack@.drop_last() == old(context).scope_stack@.drop_last(),
 { unimplemented!() }
 /// R-abstract: `for (_idx, events) in idx_output { output.extend(&events); }`
 #[verifier::external_body]
@@ -185,6 +200,8 @@ pub open spec fn only_real_svg_changed(pre: TransformerContext, post: Transforme
 //@ - spec_real_svg(input.events@) ==> r is Ok && r->Ok_0.0 == into_output(input) && r->Ok_0.1 is None     @@C03.events.identity @@C05.events.identity
 //@ - spec_real_svg(input.events@) ==> *final(context) == *old(context)     @@C03.events.frame
 //@ - final(context).real_svg == old(context).real_svg     @@C02.root.only_the_document_decides @@C03.events.nested_never_marks @@C05.root.only_the_document_decides
+//@ - old(context).scope_stack.len() > 0 ==> final(context).scope_stack.len() == old(context).scope_stack.len()
+//@       && final(context).scope_stack@.drop_last() == old(context).scope_stack@.drop_last()     @@C15.scope.outer_bindings_untouched
 //@end
 
 // ------------------------------------------------------------------------------ postprocess
@@ -262,7 +279,10 @@ pub trait EventGen {
 }
 impl EventGen for SvgElement {
     #[verifier::external_body]
-    fn generate_events(&self, context: &mut TransformerContext) -> (r: Result<(OutputList, Option<BoundingBox>)>) { unimplemented!() }
+    fn generate_events(&self, context: &mut TransformerContext) -> (r: Result<(OutputList, Option<BoundingBox>)>)
+        // a graphics element (shape, use, reuse) closes with the bindings it found (U-scope: C15.reuse.bindings_restored; OtherElement never touches the scopes)
+        ensures graphics_name(self.name@) ==> final(context).scope_stack@ == old(context).scope_stack@
+    { unimplemented!() }
 }
 //@item src/transform.rs :: struct Container
 //@end
@@ -284,6 +304,7 @@ impl EventGen for Container {
 //@ - self.0.name@ == "svg"@ && attr_of(self.0, "xmlns"@) == Some(svg_ns()) && self.0.inner_events_some(*old(context)) ==>
 //@     r is Ok && r->Ok_0.0 == into_output(all_events_of(self.0, *old(context))) && r->Ok_0.1 is None
 //@     && *final(context) == *old(context)     @@C03.nested.verbatim
+//@ - r is Ok && old(context).scope_stack.len() > 0 ==> final(context).scope_stack@ == old(context).scope_stack@     @@C15.container.bindings_restored
 //@end
 }
 } // verus!
